@@ -33,6 +33,10 @@ pub enum Src {
     SaleTotal,
     SaleLotTotal,
     SaleCost,
+    /// a purchase / a sale that carries a lot price WITH a lot date (and note) besides its cost: the price is the cost,
+    /// stated on the TRANSACTION date (the lot date, 2024/01/02, lies before every query date)
+    LotDatedCost,
+    SaleLotDatedCost,
 }
 
 /// 1 x = rate y, stated on `date` by `src`.
@@ -70,6 +74,8 @@ pub fn alphabet(ncom: usize) -> Vec<Fact> {
             v.push(Fact { date: 20, x, y, rate: 2, src: Src::SaleTotal });
             v.push(Fact { date: 20, x, y, rate: 3, src: Src::SaleLotTotal });
             v.push(Fact { date: 30, x, y, rate: 2, src: Src::SaleCost });
+            v.push(Fact { date: 20, x, y, rate: 3, src: Src::LotDatedCost });
+            v.push(Fact { date: 30, x, y, rate: 3, src: Src::SaleLotDatedCost });
             // reverse direction: 1 y = 2 x
             v.push(Fact { date: 20, x: y, y: x, rate: 2, src: Src::Cost });
         }
@@ -106,6 +112,8 @@ pub fn render_opt(ncom: usize, facts: &[Fact], declare: bool) -> (String, String
             Src::SaleTotal => text.push_str(&format!("2024/01/{} f\n  P  -2 {} @@ {} {}\n  Q  {} {}\n\n", d, x, 2 * r, y, 2 * r, y)),
             Src::SaleLotTotal => text.push_str(&format!("2024/01/{} f\n  P  -2 {} {{{{{} {}}}}}\n  Q  {} {}\n\n", d, x, 2 * r, y, 2 * r, y)),
             Src::SaleCost => text.push_str(&format!("2024/01/{} f\n  P  -1 {} @ {} {}\n  Q  {} {}\n\n", d, x, r, y, r, y)),
+            Src::LotDatedCost => text.push_str(&format!("2024/01/{} f\n  P  1 {} {{{} {}}} [2024/01/02] (lot) @ {} {}\n  Q\n\n", d, x, r, y, r, y)),
+            Src::SaleLotDatedCost => text.push_str(&format!("2024/01/{} f\n  P  -1 {} {{{} {}}} [2024/01/02] @ {} {}\n  Q\n\n", d, x, r, y, r, y)),
         }
     }
     (text, db)
